@@ -758,6 +758,13 @@ def run(ctx):
     outs = [(f"stdout:{n}", G.multi_schema(n), None, None) for n in (1, 2, 3)]
     run_.run(outs, tools_of=lambda tag, fam: ["exppp"], timeout=tmo, args=("-o", "--"))
     run_.run(outs, tools_of=lambda tag, fam: ["exppp"], timeout=tmo, args=("-o", "one_file.exp"))
+    # exppp -l: every line length the option accepts (2 to 5 characters, atoi), incl. negative, zero and non-numeric; the model's
+    # continuation-line theorem assumes indent2 >= 0 and says nothing about -l, so this is observation only
+    lrng = __import__("random").Random(11)
+    lins = [(f"linelength:valid{i}", G.valid_schema(lrng, i, size=3), None, None) for i in range(2 if quick else 6)] + \
+           [("linelength:long_ident", G.long_ident("attribute", 180), None, None), ("linelength:nested_if", G.nested_statements("if", 30), None, None)]
+    for l in ("-9999", "-100", "-1", "00", "01", "02", "03", "05", "09", "10", "11", "15", "20", "99999", "ab", "+1"):
+        run_.run([(f"{tg}:{l}", d, f, n) for tg, d, f, n in lins], tools_of=lambda tag, fam: ["exppp"], timeout=tmo, args=("-l", l))
     # select cycles used as the left operand of `.` / `\`: model verdict vs the tools
     for ln in (1, 2, 3):
         pred = model.one(f"selectsearch {ln}")
